@@ -116,6 +116,19 @@ def complement(s):
     return "".join(t[c] for c in s)
 
 
+def orientation(phasing):
+    """
+    For a diploid phasing (the two haplotypes, heterozygous at every position), return a
+    string over {0,1} that tells, per position, which haplotype carries the smaller allele.
+    For bi-allelic variants (alleles 0 and 1) this is the first haplotype itself; for
+    multi-allelic heterozygous genotypes such as 1|2 it is the same information, on which
+    complement(), the switch encoding and the BED records can work: both ['0110', '1001']
+    and ['1210', '2101'] give '0110'.
+    """
+    assert len(phasing) == 2
+    return "".join("0" if a < b else "1" for a, b in zip(phasing[0], phasing[1]))
+
+
 def hamming(s0, s1):
     """
     >>> hamming('ABCD', 'AXCY')
@@ -296,8 +309,9 @@ def compare_block(phasing0, phasing1):
 
     if ploidy == 2:
         # conversion to int is allowed, as there should be no fractional error counts for diploid comparisons
-        switches = int(hamming(switch_encoding(phasing0[0]), switch_encoding(phasing1[0])))
-        switch_flips = compute_switch_flips(phasing0[0], phasing1[0])
+        o0, o1 = orientation(phasing0), orientation(phasing1)
+        switches = int(hamming(switch_encoding(o0), switch_encoding(o1)))
+        switch_flips = compute_switch_flips(o0, o1)
         minimum_hamming_distance = int(minimum_hamming_distance)
     else:
         switches = compute_switch_errors_poly(phasing0, phasing1, matching_pos)
@@ -545,7 +559,9 @@ def compare_pair(
 
         # TODO: extend to polyploid
         if ploidy == 2 and bed_creator is not None:
-            bed_records.extend(bed_creator.records(phasing0[0], phasing1[0], block_positions))
+            bed_records.extend(
+                bed_creator.records(orientation(phasing0), orientation(phasing1), block_positions)
+            )
         total_errors += errors
         phased_pairs += len(block) - 1
         total_compared_variants += len(block)
@@ -555,16 +571,11 @@ def compare_pair(
             longest_block_positions = block_positions
             # TODO: extend to polyploid
             if ploidy == 2:
-                if hamming(phasing0[0], phasing1[0]) < hamming(
-                    phasing0[0], complement(phasing1[0])
-                ):
-                    longest_block_agreement = [
-                        1 * (p0 == p1) for p0, p1 in zip(phasing0[0], phasing1[0])
-                    ]
+                o0, o1 = orientation(phasing0), orientation(phasing1)
+                if hamming(o0, o1) < hamming(o0, complement(o1)):
+                    longest_block_agreement = [1 * (p0 == p1) for p0, p1 in zip(o0, o1)]
                 else:
-                    longest_block_agreement = [
-                        1 * (p0 != p1) for p0, p1 in zip(phasing0[0], phasing1[0])
-                    ]
+                    longest_block_agreement = [1 * (p0 != p1) for p0, p1 in zip(o0, o1)]
     longest_block_assessed_pairs = max(longest_block - 1, 0)
     print_stat("ALL INTERSECTION BLOCKS", "-")
     print_errors(total_errors, phased_pairs)
@@ -632,7 +643,15 @@ def compare_multiway(block_intersection, dataset_names, phases):
         if len(block) < 2:
             continue
         total_compared += len(block) - 1
-        phasings = ["".join(str(phases[j][i].phase[0]) for i in block) for j in range(len(phases))]
+        phasings = [
+            orientation(
+                [
+                    "".join(str(phases[j][i].phase[0]) for i in block),
+                    "".join(str(phases[j][i].phase[1]) for i in block),
+                ]
+            )
+            for j in range(len(phases))
+        ]
         switch_encodings = [switch_encoding(p) for p in phasings]
         for i in range(len(block) - 1):
             s = "".join(switch_encodings[j][i] for j in range(len(switch_encodings)))
